@@ -31,7 +31,7 @@ fn caps_fields(re: &Regex, c: &Captures<'_>) -> (String, String) {
 pub fn run_c12(cfg: &Cfg) {
     let mut s = Session::new(&cfg.out);
     let thorough = cfg.tier == "thorough";
-    let alphabet = ['$', '{', '}', '\\', 'g', '<', '>', '0', '1', '9', 'x', '_', 'é', ' '];
+    let alphabet = ['$', '{', '}', '\\', 'g', '<', '>', '0', '1', '9', 'x', '_', 'é', ' ', '-'];
     let mut templates = all_texts(&alphabet, if thorough { 5 } else { 4 });
     let mut r = Rng(cfg.seed ^ 0xc12);
     let extra = ['$', '{', '}', '\\', 'g', '<', '>', '0', '1', '2', 'x', 'n', '_', 'é', ' ', '日', 'a'];
@@ -43,7 +43,7 @@ pub fn run_c12(cfg: &Cfg) {
     for t in [
         "$0", "$1", "${1}", "$x", "${x}", "$x_1", "${x_1}", "$$", "$", "${", "${}", "${x", "$10", "${10}", "$1a", "\\1", "\\g<1>", "\\g<x>", "\\\\",
         "\\g<", "\\g<>", "\\10", "\\g<x_1>", "$99999999999999999999", "\\99999999999999999999", "${99999999999999999999}", "$é", "${é}",
-        "a$1b$2c", "$_0", "${_0}", "\\g<_0>",
+        "a$1b$2c", "$_0", "${_0}", "\\g<_0>", "${-1}", "${-}", "\\g<-1>", "$-1", "${-1}x", "${1-}",
     ] {
         templates.push(t.to_string());
     }
